@@ -31,6 +31,10 @@ def tasks(ctx, quick):
         rho = rng.choice([0.0, 1.0, 2.5, 7.0, rng.uniform(0.1, 20)]) if i % 9 else 0.0
         form = i % 3
         lam = rng.choice(WAVELENGTHS) if form == 0 else ([rng.choice(WAVELENGTHS)] if form == 1 else sorted(rng.sample(WAVELENGTHS, rng.randint(2, 5))))
+        if form == 2 and i % 2:          # a vector is any sequence of wavelengths: not increasing, with a repeated value,
+            lam = rng.sample(lam, len(lam)) + ([lam[0]] if i % 4 == 1 else [])
+        if form == 2 and i % 10 == 4:    # or a grid of whole numbers (a list / array of ints)
+            lam = rng.sample([1, 2, 3, 4, 5, 6, 12], rng.randint(2, 4))
         if i % 8 == 3:           # weights as tiny absolute amounts (picomoles) / a residual-gas density
             k = rng.choice([1e-12, 1e-9, 1e-15])
             ws = [w * k for w in ws]
@@ -38,6 +42,8 @@ def tasks(ctx, quick):
             rho = rng.choice([1e-10, 1e-12, 1e-7])
         items.append({"id": "t%d" % i, "kind": "comp", "materials": mats, "weights": ws, "density": rho, "wavelength": lam,
                       "again": i % 4 == 2, "reuse_args": i % 5 == 1})
+        if form != 0:
+            items[-1]["wform"] = ["array", "list", "asis", "tuple", "array", "asis"][(i // 3) % 6]
         if form == 0 and i % 6 == 0:
             items[-1]["wavelength"] = rng.choice([1, 2, 5, 12])
             items[-1]["wtype"] = rng.choice(["int64", "float32", "int32", "float64"])
